@@ -29,7 +29,7 @@ IDENTS = ['eval', 'exec', 'system', 'open', '__import__', 'getattr', 'foo_bar', 
 PREFIX = ['', '', 'os.', 'run ', 'x=', '__builtins__.', '1+', '"', "it's ",
           # brackets of the surrounding prose, closing ones before the first opening one included
           '1) ', ':) then ', 'a) b) ', ') ', '( ', '(( ', '] ) ', 'ok :( ', 'step 2) use ', '}) ', ')))']
-ARGS = ['', '1', '1+1', 'a, b', "'ls -l'", '"rm"', 'x.y', '__name__', 'A1:B2', '1, 2, 3']
+ARGS = ['', '1', '1+1', 'a, b', "'ls -l'", '"rm"', 'x.y', '__name__', 'A1:B2', '1, 2, 3', '1,\n2', "\n'ls'\n", 'a,\n\tb']
 # argument lists with bracket groups of their own: the cell has to be reported; which fragment text a (lazy or greedy) pattern cuts out of
 # it is not fixed by the statement, so only the address is judged for these
 NESTED_ARGS = ['(1+2)*3', '("ls")', '(1, 2)', 'a, (b)', '[1, (2)]', '((x))']
@@ -38,7 +38,9 @@ TITLES = ['S1', 'Data_2', 'my sheet', 'Лист1', '2024', 'a.b', 'Q (1)', 'x-y'
 INNOCENT = ['SUM(A1:A3)', 'hello (world)', 'IF(A1>1, "a", "b")', 'text', 'a (b) c', 42, 3.5, True, dt.datetime(2024, 5, 1),
             '=SUM(A1:A3)', '=IF(A1>1,"a","b")', '=A1+1', '=ROUND(A1,1)', 'MAX(1, 2) and MIN(3)', '()', 'f ()', '(x)', 'A(',
             # a number in front of a bracket is no identifier: phone numbers, quantities, implicit products
-            'call 555(1234)', 'tel. 8(800)555-35-35', '2(3)', '100(ok)', '12 (pcs)', '3(a+b)', '7(8)9(10)', '=A1*(2)', '№5(б)']
+            'call 555(1234)', 'tel. 8(800)555-35-35', '2(3)', '100(ok)', '12 (pcs)', '3(a+b)', '7(8)9(10)', '=A1*(2)', '№5(б)',
+            # upper-case function names with digits in them
+            '=LOG10(100)', 'ATAN2(1,1)', '=DAYS360(A1,B1)', 'HEX2DEC("FF") and SUMX2MY2(A1:A2,B1:B2)', '=IF(LOG10(A1)>1,"a","b")', 'T2(1)']
 
 
 def make_suspicious(rng, in_formula):
